@@ -41,6 +41,8 @@ MODEL_MAP = [
      'coq': 'Model.Cli.plan_stage/set_routing/mk_session/priv_level'},
     {'python': 'pyipmi/ipmitool.py:cmd_raw', 'coq': 'Model.Cli.cmd_raw/print_hex'},
     {'python': 'pyipmi/ipmitool.py:main 647-666', 'coq': 'Model.Cli.command_error_end'},
+    {'python': 'pyipmi/ipmitool.py:main 647-666 (try / except / finally around open + cmd) + pyipmi/__init__.py:Ipmi.open/close + '
+               'pyipmi/session.py:Session.establish/close', 'coq': 'Model.Cli.main_run/do_steps (shape: Gen.CliTable.run_shape, GENERATED)'},
     {'python': 'int(s, 0) / int(s)', 'coq': 'Model.Cli.int_base0/int_base10'},
 ]
 TRUSTED = ['translator gen/gen_cli.py (fail-closed; its output is compared with the live COMMANDS / Ipmi objects each run)',
@@ -68,14 +70,41 @@ class Clock:
         self.t += s
 
 
+def make_exc(f):
+    """'timeout' | completion code -> the exception a transport raises"""
+    import pyipmi.errors as E
+    return E.IpmiTimeoutError() if f == 'timeout' else E.CompletionCodeError(f)
+
+
 class Iface(F.ScriptedInterface):
-    def __init__(self, handler):
+    """stage_fault = (stage, 'timeout' | cc): the interface call of that stage ('open', 'establish',
+    'close_session', 'close') raises; `calls` records the interface calls in order ('command' is added by
+    the COMMANDS wrapper of run_cli)"""
+
+    def __init__(self, handler, stage_fault=None):
         super().__init__(handler)
         self.session = None
         self.targets = []
+        self.calls = []
+        self.stage_fault = stage_fault
+
+    def _stage(self, name):
+        self.calls.append(name)
+        if self.stage_fault is not None and self.stage_fault[0] == name:
+            raise make_exc(self.stage_fault[1])
+
+    def open(self):
+        self._stage('open')
+
+    def close(self):
+        self._stage('close')
+
+    def close_session(self):
+        self._stage('close_session')
 
     def establish_session(self, session):
         self.session = session
+        self._stage('establish')
 
     def send_and_receive_raw(self, target, lun, netfn, raw_bytes):
         self.targets.append(target)
@@ -120,7 +149,7 @@ class Obs:
 PROCESS_LOG = []
 
 
-def run_cli(argv, handler, cfg=None):
+def run_cli(argv, handler, cfg=None, stage_fault=None):
     """pyipmi.ipmitool.main() with sys.argv = ['ipmitool.py'] + argv over `handler`"""
     PROCESS_LOG.append({'kind': 'cli', 'argv': list(argv)} if cfg is None else
                        {'kind': 'cli', 'argv': list(argv), 'cfg': cfg})
@@ -136,7 +165,7 @@ def run_cli(argv, handler, cfg=None):
         o.factory = (name, a, kw)
         if name not in names:           # as the real create_interface
             raise RuntimeError('unknown interface with name %s' % name)
-        o.itf = Iface(handler)
+        o.itf = Iface(handler, stage_fault)
         return o.itf
 
     real_conn = pyipmi.create_connection
@@ -153,6 +182,8 @@ def run_cli(argv, handler, cfg=None):
     def wrap(i, fn):
         def f(ipmi, args):
             o.selected = (i, list(args))
+            if o.itf is not None:
+                o.itf.calls.append('command')
             return fn(ipmi, args)
         return f
     saved = (pyipmi.interfaces.create_interface, pyipmi.create_connection, pyipmi.logger.add_log_handler,
@@ -708,7 +739,45 @@ def oracle_fault(inp):
     return None
 
 
-ORACLES = {'command': oracle_command, 'power': oracle_power, 'options': oracle_options, 'raw': oracle_raw,
+STAGES = ['open', 'establish', 'command', 'close_session', 'close']
+
+
+def run_stage_fault(inp):
+    stage, f = inp['stage'], inp['fault']
+    if stage == 'command':          # the transport raises on the first request of the command
+        dev = B.Bmc()
+        state = {'n': 0}
+
+        def handler(netfn, cmd, lun, data, req=None):
+            state['n'] += 1
+            if state['n'] == 1:
+                raise make_exc(f)
+            return dev.handle(netfn, cmd, lun, data, req)
+        return run_cli(inp['argv'], handler)
+    return run_cli(inp['argv'], B.Bmc().handle, stage_fault=(stage, f))
+
+
+def oracle_stage_fault(inp):
+    """a completion code / time-out raised while the interface is opened, the session established or the
+    command runs ends the tool with a message (naming the code) and a non-zero status - no raw exception -
+    and session and interface are closed.  A fault while closing is not judged (the property does not say)."""
+    stage, f = inp['stage'], inp['fault']
+    if stage in ('close_session', 'close'):
+        return None
+    o = run_stage_fault(inp)
+    what = 'time-out' if f == 'timeout' else 'completion code 0x%02x' % f
+    if o.exc is not None:
+        return '%s while %s leaves main as %s (no message, no exit status)' % (what, stage, type(o.exc).__name__)
+    if not o.status:
+        return '%s while %s: exit status %r' % (what, stage, o.status)
+    if not o.stdout.strip() or (f != 'timeout' and ('%02x' % f) not in o.stdout.lower()):
+        return '%s while %s: output %r does not name it' % (what, stage, o.stdout[-100:])
+    if o.itf is None or o.itf.calls[-2:] != ['close_session', 'close']:
+        return '%s while %s: session / interface not closed (interface calls %s)' % (what, stage, o.itf and o.itf.calls)
+    return None
+
+
+ORACLES = {'stage_fault': oracle_stage_fault, 'command': oracle_command, 'power': oracle_power, 'options': oracle_options, 'raw': oracle_raw,
            'fault': oracle_fault, 'history': oracle_history}
 
 
@@ -978,6 +1047,44 @@ def run(ctx):
             inp = {'command': c.name, 'args': args, 'spec': spec, 'fault': [idx, f]}
             oracle('fault', inp, 'fault:%s:%s' % (c.name, 'timeout' if f == 'timeout' else 'cc'))
             D.add(('fault', c.name, idx, f), True, 'fault-timeout' if f == 'timeout' else 'fault-cc')
+    # ---- (e) one fault at each stage main goes through: interface.open(), establish_session(), the command's
+    # first request, close_session(), close(); sample of table entries x both session styles
+    ISTEP = {'open': 'IOpen', 'establish': 'IEstablish', 'command': 'ICommand', 'close_session': 'ICloseSession',
+             'close': 'IClose'}
+    sample = [['bmc', 'info'], ['chassis', 'status'], ['raw', '6', '1'], ['sel', 'list'], ['chassis', 'power', 'cycle'],
+              ['sdr', 'list'], ['picmg', 'power', 'get'], ['hpm', 'capabilities']]
+    styles = [[], ['-I', 'rmcp', '-H', '10.0.0.1', '-U', 'admin', '-P', 'secret', '-L', 'operator'], ['-v'],
+              ['-I', 'ipmitool', '-H', 'bmc.example', '-t', '0x82']]
+    for ci, words in enumerate(sample if not q else sample[:5]):
+        for si, style in enumerate(styles if not q else styles[:2]):
+            for stage in [None] + STAGES:
+                fl = [None] if stage is None else ['timeout', rng.choice([0x81, 0x82, 0xc1, 0xc3, 0xcc, 0xd4, 0xff]),
+                                                   rng.choice(codes + [0x01, 0x80])][:(2 if q and (ci + si) % 2 else 3)]
+                for f in fl:
+                    argv = style + words
+                    if stage is None:
+                        o = run_cli(argv, B.Bmc().handle)
+                        fault_term = 'None'
+                    else:
+                        inp = {'argv': argv, 'stage': stage, 'fault': f}
+                        oracle('stage_fault', inp, 'stage-fault:%s:%s' % (stage, 'timeout' if f == 'timeout' else 'cc'))
+                        o = run_stage_fault(inp)
+                        fault_term = '(Some (%s, %s))' % (ISTEP[stage], 'TimeoutError' if f == 'timeout' else '(CCError %d)' % f)
+                    if o.itf is None:
+                        continue
+                    if o.exc is not None:
+                        end = '(RunRaises %s)' % py_exc_term(o.exc)
+                    elif o.status == 0 and 'completion code' not in o.stdout and 'timed out' not in o.stdout:
+                        end = 'RunReturns'
+                    else:
+                        # the message is the last line printed before sys.exit
+                        lines = [ln for ln in o.stdout.split('\n') if ln]
+                        end = '(RunExit %s %s)' % (C.c_opt(C.c_str(lines[-1]) if lines else None), C.c_Z(o.status))
+                    if all(printable(ln) for ln in o.stdout.split('\n')[-2:]):
+                        add('chk_run %s %s %s' % (fault_term, C.c_list([ISTEP[x] for x in o.itf.calls]), end),
+                            ('run-stages', argv, stage, f))
+                    D.add(('stage', tuple(argv), stage, f), stage is not None, 'stage-fault-%s' % (stage or 'none'))
+
     # what main does with an exception from the command: model vs. implementation
     for e, term in [(E.CompletionCodeError(cc), '(CCError %d)' % cc) for cc in (0, 1, 0x0f, 0x80, 0xc1, 0xcb, 0xff)] + \
                    [(E.IpmiTimeoutError(), 'TimeoutError'), (E.RetryError(), 'RetryError'), (E.DecodingError('x'), 'DecodingError'),
@@ -997,7 +1104,7 @@ def run(ctx):
     # if not, the failure depends on earlier runs: give it the history (shrunk, confirmed in a fresh process)
     for key in list(fails):
         v = fails[key]
-        if v.replay.get('oracle') not in ('options', 'command', 'power', 'raw', 'fault'):
+        if v.replay.get('oracle') not in ('options', 'command', 'power', 'raw', 'fault', 'stage_fault'):
             continue
         if not C.holds_in_fresh_process('C20', v.replay):
             continue                                  # reproduces on its own: a plain finding
